@@ -1,7 +1,7 @@
 INIT Init
 NEXT Next
 CONSTANTS
-  Parts = {"real", "cx", "arr", "inf", "fine", "cans", "fun"}
+  Parts = {"real", "cx", "arr", "inf", "fine", "cans", "car"}
   Level = 2
 INVARIANT LawOutDomain
 INVARIANT InvZeroDeviation
@@ -22,6 +22,7 @@ INVARIANT InvFailableMonotone
 INVARIANT InvAllMiss
 INVARIANT InvAllMissRejected
 INVARIANT InvVerdictCounts
+INVARIANT InvGenerousAccepted
 INVARIANT InvSafeArith
 INVARIANT InvRewriteKeepsValue
 INVARIANT InvRewriteSameAccepted
